@@ -28,7 +28,10 @@ Inductive case :=
        (o_cookies : list (str * str))                      (* backend: r.Cookies() as (name, value) *)
 (* a request to a route that never calls the upstream handler (/robots.txt, /oauth2/v1/certs,
    /oauth2/auth, /oauth2/sign_out, /oauth2/callback, /ping, /favicon.ico without a valid session) *)
-| CaseNoUpstream (client : list (str * str)) (forwarded : bool).
+| CaseNoUpstream (client : list (str * str)) (forwarded : bool)
+(* the configuration path (environment -> LoadConfig -> Validate -> SetUpstreamConfigs -> New)
+   of the tree under test refused a configuration the modelled tree boots: broken correspondence *)
+| CaseBootFailed.
 
 Definition pair_eqb (x y : str * str) : bool := str_eqb (fst x) (fst y) && str_eqb (snd x) (snd y).
 Definition pairs_eqb (a b : list (str * str)) : bool := list_eqb pair_eqb a b.
@@ -128,6 +131,7 @@ Definition observed_mode (o_saved : option session) (m : mode) : mode :=
 Definition judge (c : case) : N :=
   match c with
   | CaseNoUpstream _ fwd => if fwd then 3 else 0
+  | CaseBootFailed => 1
   | Case scrub cfg r m allowed d client fwd o_saved ou oe og ot ol oc =>
       let '(mu, me, mg, mt, ml) := predict scrub cfg (model_route allowed d r) (model_mode allowed d m) client in
       let mismatch :=
@@ -150,6 +154,7 @@ Definition judge (c : case) : N :=
 Definition classify (c : case) : N :=
   match c with
   | CaseNoUpstream _ _ => 3
+  | CaseBootFailed => 0
   | Case _ cfg r m _ d client _ _ _ _ _ _ _ _ =>
       let cn := cookie_name cfg in
       let cs := map name_value (read_cookies (h_get k_cookie (mk_headers client))) in
